@@ -102,7 +102,7 @@ def stream_sample(ctx, ntables):
             col = pd.Series([R.choice([1.5, 2.25, 3.0, 10.0]) for _ in range(n)], dtype=float); col[R.randrange(n)] = R.choice([2.5e-308, 1e-320, 3e-310])
             df = t["df"].copy(); j = R.randrange(len(df.columns)); df[df.columns[j]] = col
             t["df"] = df; t["kinds"][j] = "float"
-        if R.random() < 0.15:          # 64-bit surrogate keys as entity ids (unsigned, upper half of the range), several rows per entity
+        if ti % 9 == 4 or R.random() < 0.1:          # 64-bit surrogate keys as entity ids (unsigned, upper half of the range), several rows per entity
             ne = max(1, t["n"] // R.choice([1, 2, 5]))
             t["pids"] = pd.DataFrame({"id": np.array([2 ** 63 + R.randrange(ne) * 7919 if R.random() < 0.7 else 2 ** 64 - 1 - R.randrange(ne) for _ in range(t["n"])], dtype=np.uint64)})
             t["pid_mode"] = "uint64"
